@@ -127,7 +127,7 @@ func (c *objectClassifier) observe(e traceEvent) string {
 	}
 	role := "other"
 	switch e.Name {
-	case "fchmod", "fchown", "write", "read", "getdents64", "fstat":
+	case "fchmod", "fchown", "write", "read", "getdents64", "fstat", "pwrite64", "pread64", "copy_file_range", "sendfile", "splice":
 		fd, err := strconv.Atoi(strings.TrimSpace(strings.SplitN(e.Args, ",", 2)[0]))
 		if err == nil {
 			if name, ok := c.fds[fd]; ok {
